@@ -27,14 +27,22 @@ ASSUMPTIONS = ["per-edge exactness needs the draw pattern 'one random.random() p
                "structural and statistical clauses decide)", "chi-square two-stage protocol"]
 HEADLINE = ["graphs_with_labels_of_mixed_type", "calls", "per_edge_exact_checks", "edges_decided", "structure_checks", "phi0_checks", "phi1_checks", "scripted_zero", "scripted_one",
             "input_events", "repercolations_after_in_place_edit", "star_samples", "two_star_samples", "multigraph_star_samples", "chi2_tests", "chi2_escalations", "draw_pattern_missing"]
-REQUIRED = {t: {"structure_checks": 200, "phi0_checks": 10, "phi1_checks": 10, "scripted_zero": 10, "scripted_one": 10,
+REQUIRED = {t: {"retained_subgraph_decided": 200, "phi0_checks": 10, "phi1_checks": 10, "scripted_zero": 10, "scripted_one": 10,
                 "star_samples": 4000, "two_star_samples": 4000, "multigraph_star_samples": 4000} for t in ("quick", "thorough")}
 PHIS = [0.0, 0.05, 0.15, 0.3, 0.5, 0.7, 0.8, 0.95, 1.0]
+
+
+def finalize(counters, sets, tier):
+    counters["retained_subgraph_decided"] = counters.get("structure_checks", 0) + counters.get("retained_subgraph_confirmed_from_the_draw_log", 0)
+    return {}
 
 
 def gen_cases(tier, seed):
     n = 300 if tier == "quick" else 5000
     cases = [{"kind": "graph", "seed": seed * 100213 + i} for i in range(n)]
+    # scale: long chains of bonds (rings, ladders, ring lattices with thousands of vertices) at phi = 1 and just below
+    for i in range(4 if tier == "quick" else 40):
+        cases.append({"kind": "graph", "seed": seed * 100213 + 800000 + i, "large": True, "_cost": 6})
     R = 4000 if tier == "quick" else 40000
     for phi in (0.15, 0.5, 0.8):
         cases.append({"kind": "star", "phi": phi, "R": R, "seed": seed * 31 + 1, "_cost": 30})
@@ -154,7 +162,17 @@ def one_call(res, g, phi, tap, ctx, mg=None):
         else:
             res.count("draw_pattern_missing")
     else:
+        # no working copy to watch (the implementation does not copy-and-delete): if it still draws one uniform per edge, the
+        # retained subgraph follows from the draw log under the natural reading "i-th draw decides the i-th edge"; a match is an
+        # exact confirmation, a mismatch proves nothing (the reading may be wrong) and is left to the other clauses
         res.count("no_working_copy_seen")
+        if len(draws) == len(edges) and len(tap.log) - n0 == len(edges):
+            kept = [e for e, r in zip(edges, draws) if r <= phi]
+            want = largest_fraction(list(mg.nodes()), kept)
+            if abs(S - want) <= 1e-12:
+                res.count("retained_subgraph_confirmed_from_the_draw_log")
+            else:
+                res.count("draw_log_reading_did_not_explain_the_value")
     return S
 
 
@@ -164,13 +182,20 @@ def run_case(case):
     rng = random.Random(case["seed"])
     if case["kind"] == "graph":
         kind, g = make_graph(rng)
+        if case.get("large"):
+            n = rng.randint(1500, 6000)
+            kind = rng.choice(["ring", "circular-ladder", "ring-lattice", "path", "grid"])
+            g = {"ring": lambda: nx.cycle_graph(n), "circular-ladder": lambda: nx.circular_ladder_graph(n // 2),
+                 "ring-lattice": lambda: nx.watts_strogatz_graph(n, 4, 0, seed=1), "path": lambda: nx.path_graph(n),
+                 "grid": lambda: nx.convert_node_labels_to_integers(nx.grid_2d_graph(40, n // 40))}[kind]()
+            res.count("large_chain_graphs")
         N, E = g.number_of_nodes(), g.number_of_edges()
         if g.graph.get("mixed_labels"):
             res.count("graphs_with_labels_of_mixed_type")
         ctx0 = {"graph_kind": kind, "n": N, "edges": [tuple(e) for e in list(g.edges())[:30]]}
         full = largest_fraction(list(g.nodes()), list(g.edges()))
         nt = False
-        for phi in [0.0, 1.0] + rng.sample(PHIS, 3) + [rng.random()]:
+        for phi in ([0.0, 1.0] + rng.sample(PHIS, 3) + [rng.random()] if not case.get("large") else [1.0, 0.9995, 0.0, 0.5]):
             ctx = dict(ctx0, phi=phi)
             S = one_call(res, g, phi, RandomTap(seed=rng.randrange(1 << 30)), dict(ctx, schedule="seeded"))
             if S is None:
